@@ -19,10 +19,13 @@ pub struct Variable {
 impl Variable {
     pub(crate) fn new(span: Span, ident: Ident, local: &LocalEnv) -> Result<Self, Error> {
         if local.variable(&ident).is_none() {
-            let idents = local
+            // Sorted, so that the "did you mean" suggestion does not depend on
+            // the iteration order of the variable map.
+            let mut idents = local
                 .variable_idents()
                 .map(std::clone::Clone::clone)
                 .collect::<Vec<_>>();
+            idents.sort();
 
             return Err(Error::undefined(ident, span, idents));
         }
